@@ -91,10 +91,13 @@ TRUSTED = [
     "exactly when the pending yield point is, and then the whole successor state = the effect of the skeleton's "
     "operation at that yield point (applyYP), then of the local operations passed (applyLocalP), then the next yield "
     "point as program counter — hand written and trusted there are only applyYP / applyLocalP (what ONE operation of the "
-    "vocabulary does to the state) and playerGv (which fields the guards read).  NOT given: the EFFECTS of stepMain "
-    "(its successor structure inside a call is given; what each operation of the control thread does to the state, and "
-    "the script level nextCmd, stay hand written, tied by the step-by-step replay); any change of a guard or of the order "
-    "still "
+    "vocabulary does to the state) and playerGv (which fields the guards read); and (src_main_step_is_interpreted) "
+    "the effects of stepMain inside a call likewise: successor state = applyYM of the skeleton's operation at the "
+    "pending yield point, then applyLocalM of the local operations passed (finished = True, creation of the thread "
+    "object, _threads.append, halting = True), up to the program counter (src_main_successor) and the return to the "
+    "script.  Hand written and trusted for stepMain: applyYM / applyLocalM, mainGv, the data a program counter "
+    "carries (which thread), the script level (nextCmd, the logged observation) — tied by the step-by-step replay; any "
+    "change of a guard or of the order still "
     "breaks src_skeleton_is_documented",
     "call shapes: ALV/Spec/C17.lean PlayCall / openArgs / frames / samplesPerChunk are a hand-written reading of "
     "AudioThread.__init__ (defaults, _STRUCT2PYAUDIO, the setdefault of output_device_index); the driver resolves the "
@@ -190,7 +193,7 @@ MANIFEST = {
             "switches are extracted from the source on every run (translator c17_tr.py, theorems src_*), and the successor "
             "structure of stepPlayer / of stepMain inside each call is the interpretation of the regenerated methods "
             "(src_run_successor, src_main_successor), and stepPlayer as a whole is that interpretation with per-operation "
-            "effects (src_player_step_is_interpreted).  No "
+            "effects (src_player_step_is_interpreted; for stepMain inside a call: src_main_step_is_interpreted).  No "
             "PENDING statement.  Known findings excluded by explicit hypotheses / recognised signatures: wait=True with a "
             "paused player (D10b), the last lock release of a player that left _threads before close looked (D15).  "
             "D26 (close / take with two active recording streams raised TypeError) is repaired in /repo (c60d4c5) and "
@@ -204,7 +207,7 @@ MANIFEST = {
                  "a player thread / (src_main_successor) of the control thread inside play / close / pause / play / stop moves "
                  "its program counter where a control-flow interpreter of the skeleton (ALV/Model/C17Next.lean) goes from "
                  "that yield point of the regenerated method, and stepPlayer = that interpreter with per-operation effects "
-                 "(src_player_step_is_interpreted); step-by-step bisimulation against "
+                 "(src_player_step_is_interpreted; stepMain inside a call: src_main_step_is_interpreted); step-by-step bisimulation against "
                  "the real code under a deterministic scheduler",
 }
 
@@ -2021,7 +2024,7 @@ def extra_checks(eng):
         "theorems": ["src_skeleton_is_documented", "src_variant_is_modelled", "src_run_is_model", "src_play_is_model",
                      "src_close_is_model", "src_ctl_is_model", "src_yields_drive_the_steps", "src_shutdown",
                      "src_run_successor", "src_run_successor_total", "src_main_successor",
-                     "src_player_step_is_interpreted"],
+                     "src_player_step_is_interpreted", "src_main_step_is_interpreted"],
         "switches_read_from_the_source": sw,
         "not_translated": c17_tr.NOT_TRANSLATED,
     }
